@@ -131,7 +131,9 @@ impl<'a, C: SimCfg> Runner<'a, C> {
         self.drain()?;
         self.model.request_end();
         if let Some(msg) = err {
-            return Err(fail("panic", format!("a concurrent request panicked: {msg}")));
+            if !(self.tolerate_injected && msg.contains(INJECTED_PANIC)) {
+                return Err(fail("panic", format!("a concurrent request panicked: {msg}")));
+            }
         }
         if self.model.cyclic {
             // the request order of this epoch is no longer known to the model
@@ -336,6 +338,26 @@ impl<'a, C: SimCfg> Runner<'a, C> {
             }
             (Op::Concurrent { roots, share_tracked }, Fault::Cancel { n, .. }) => {
                 self.concurrent(roots, *share_tracked, Some((0, *n))).await
+            }
+            (Op::Concurrent { roots, share_tracked }, Fault::Panic { node, k }) => {
+                {
+                    let mut st = self.h.st.lock();
+                    let base = st.inv_count.get(node).copied().unwrap_or(0);
+                    st.panic_at = Some((*node, base + *k));
+                }
+                let before = self.h.st.lock().injected_panics;
+                self.tolerate_injected = true;
+                let r = self.concurrent(roots, *share_tracked, None).await;
+                self.tolerate_injected = false;
+                let injected = self.h.st.lock().injected_panics > before;
+                self.h.st.lock().panic_at = None;
+                self.tracked = None;
+                self.quiesce().await;
+                let _ = simkit::panics::drain();
+                if injected {
+                    self.fault_fired = true;
+                }
+                r
             }
             (Op::Session { steps, commit }, Fault::Cancel { target, n }) => {
                 self.session_faulted(steps, *commit, Some((*target, *n))).await
